@@ -122,6 +122,7 @@ def decBytesR (k : RKind) (total : Nat) (bs : Bytes) : Option (Val × Bytes) :=
   | some (len, r) =>
     if len > 4294967295 then none
     else if len = 0 then some (.bytes [], r)
+    else if len > total + 65536 then none      -- observation guard of the harness: not materialised
     else
       match readOnce k total len r.length with
       | (_, true) => none
@@ -141,6 +142,27 @@ def codecR (k : RKind) (total : Nat) : Codec where
 /-- `NewDecoder(r).Decode` over a reader of kind `k` -/
 def decodeR (k : RKind) (t : Ty) (input : Bytes) : Option (Val × Bytes) :=
   decode (codecR k input.length) t input
+
+/-- no byte string / string anywhere in the type -/
+def noByteString : Ty → Bool
+  | .prim .bytes => false
+  | .prim .str => false
+  | .prim _ => true
+  | .unit => true
+  | .pair a b => noByteString a && noByteString b
+  | .option t => noByteString t
+  | .result a b => noByteString a && noByteString b
+  | .array _ t => noByteString t
+  | .seq t => noByteString t
+  | .enumNil => true
+  | .enumCons _ t rest => noByteString t && noByteString rest
+
+/-- the harness feeds chunking readers to these types only (elsewhere a desynchronised byte string
+    makes the decoder allocate random declared lengths: too slow to observe on every case) -/
+def chunkingObserved : Ty → Bool
+  | .prim .bytes => true
+  | .prim .str => true
+  | t => noByteString t
 
 /-- does the type contain a pointer to a varying data type (known finding `opt-vdt`) -/
 def hasOptVdt : Ty → Bool
